@@ -1,5 +1,6 @@
 import RedbModel.Model.Lifecycle
 import Driver.Util
+import Driver.Life2
 /-! Line driver for the page life-cycle monitor (properties C06, C02, C05, C07, C11, C13). -/
 namespace Redb.Driver
 open Redb.Life
@@ -57,13 +58,16 @@ structure HistState where
   crashed : Bool := false
   /-- the last step was a write transaction that ended without a successful commit -/
   abandoned : Bool := false
+  /-- the algorithmic model `Redb.Life2` run alongside the monitor (Driver/Life2.lean) -/
+  l2 : L2.L2State := {}
 
 /-- the first page violating `moveOk`, for the report -/
 def firstBadMove (s s' : St) : Option Nat := s.alloc.find? (fun p => !moveOk s s' p)
 
-def histStep (st : HistState) (req : List String) : HistState × String :=
+/-- verdict of the trace monitor `Redb.Life` -/
+def histStepMon (st : HistState) (req : List String) : HistState × String :=
   match req with
-  | "cfg" :: _ => ({ prev := none, crashed := false, abandoned := false }, "ok")
+  | "cfg" :: _ => ({ prev := none, crashed := false, abandoned := false, l2 := {} }, "ok")
   | "step" :: what :: rest =>
     let isTxn := what = "txn"
     let ended := rest.any (fun t => t = "end=Abort" || t = "end=Drop")
@@ -74,7 +78,7 @@ def histStep (st : HistState) (req : List String) : HistState × String :=
     match parseState toks with
     | none => (st, "bad-op")
     | some s =>
-      let next : HistState := { prev := some s, crashed := false, abandoned := false }
+      let next : HistState := { prev := some s, crashed := false, abandoned := false, l2 := st.l2 }
       if !ownOk s then (next, "DIFF own: some page has no owner, two owners, or an owner but no allocation")
       else if !pinOk s then (next, "DIFF pin: a pinned snapshot reaches a page that is neither in the latest tree nor in a later pending-free record")
       else match st.prev with
@@ -87,5 +91,100 @@ def histStep (st : HistState) (req : List String) : HistState × String :=
             | some pg => (next, s!"DIFF step: page {pg} changed owner or was released while a surviving pin or the durable root still reaches it")
             | none => (next, "DIFF step: transaction ids went backwards")
   | _ => (st, "bad-op")
+
+/-! ### the algorithmic model alongside (extended `hist state` / `hist step` lines) -/
+
+def parsePairs (s : String) : Option (List (Nat × Nat)) :=
+  if s = "-" then some [] else
+  (s.splitOn ",").foldlM (fun (acc : List (Nat × Nat)) part =>
+    match part.splitOn ":" with
+    | [a, b] =>
+      match a.toNat?, b.toNat? with
+      | some a, some b => some (acc ++ [(a, b)])
+      | _, _ => none
+    | _ => none) []
+
+def parseNats (s : String) : Option (List Nat) :=
+  if s = "-" then some [] else (s.splitOn ",").mapM (·.toNat?)
+
+/-- `id*count,...` as a multiset of ids -/
+def parseLive (s : String) : Option (List Nat) :=
+  if s = "-" then some [] else
+  (s.splitOn ",").foldlM (fun (acc : List Nat) part =>
+    match part.splitOn "*" with
+    | [a, b] =>
+      match a.toNat?, b.toNat? with
+      | some a, some b => some (acc ++ List.replicate b a)
+      | _, _ => none
+    | _ => none) []
+
+def parseVsp (s : String) : Option (List (Nat × Nat × Bool)) :=
+  if s = "-" then some [] else
+  (s.splitOn ",").foldlM (fun (acc : List (Nat × Nat × Bool)) part =>
+    match part.splitOn ":" with
+    | [a, b, k] =>
+      match a.toNat?, b.toNat? with
+      | some a, some b => if k = "p" then some (acc ++ [(a, b, true)]) else if k = "e" then some (acc ++ [(a, b, false)]) else none
+      | _, _ => none
+    | _ => none) []
+
+def parseSpp (s : String) : Option (List (Nat × Nat × List Nat)) :=
+  if s = "-" then some [] else
+  (s.splitOn ";").foldlM (fun (acc : List (Nat × Nat × List Nat)) part =>
+    match part.splitOn ":" with
+    | [a, b, r] =>
+      match a.toNat?, b.toNat?, parseRanges r with
+      | some a, some b, some l => some (acc ++ [(a, b, l)])
+      | _, _, _ => none
+    | _ => none) []
+
+def flatRecords (r : List (Nat × List Nat)) : List (Nat × Nat) := r.flatMap (fun e => e.2.map (fun p => (e.1, p)))
+
+/-- the extended observation; `none` if the line does not carry the additional fields -/
+def parseObs (toks : List String) (s : St) : Option L2.Obs := do
+  let next ← (← field toks "next").toNat?
+  let nsp ← (← field toks "nsp").toNat?
+  let udfreed ← parseRecords (← field toks "udfreed")
+  let dalloc ← parseRecords (← field toks "dalloc")
+  let ualloc ← parseRecords (← field toks "ualloc")
+  let unp ← parseRanges (← field toks "unp")
+  let pca ← parseRanges (← field toks "pca")
+  let live ← parseLive (← field toks "live")
+  let vsp ← parseVsp (← field toks "vsp")
+  let pend ← parsePairs (← field toks "pend")
+  let unproc ← parseNats (← field toks "unproc")
+  let spins ← parseSpp (← field toks "spp")
+  let ddata := match s.pins.find? (fun π => π.kind == .durable) with
+    | some π => π.pages
+    | none => []
+  pure { id := s.id, dur := s.dur, next, nsp, alloc := s.alloc, data := s.data, sys := s.sys, dsys := s.dsys,
+         dfreedAll := flatRecords s.dfreed, sfreed := flatRecords s.sfreed, udfreed := flatRecords udfreed,
+         dalloc := flatRecords dalloc, ualloc := flatRecords ualloc, unp, pca, live, vsp, pend, unproc,
+         rpins := (s.pins.filter (fun π => π.kind == .reader)).map (fun π => (π.id, π.pages)),
+         spins, ddata }
+
+/-- one answer per line: the monitor's verdict, and where that is `ok`, the verdict of the
+algorithmic model (`DIFF life2 ...` if its prediction differs from the observed state) -/
+def histStep (st : HistState) (req : List String) : HistState × String :=
+  let (st1, out) := histStepMon st req
+  match req with
+  | "cfg" :: _ => (st1, out)
+  | "step" :: rest =>
+    let toks := rest.takeWhile (· ≠ "=>")
+    let res := (rest.dropWhile (· ≠ "=>")).drop 1
+    ({ st1 with l2 := L2.onStep st.l2 toks res }, out)
+  | "state" :: toks =>
+    match parseState toks with
+    | none => (st1, out)
+    | some s =>
+      match parseObs toks s with
+      | none => ({ st1 with l2 := {} }, out)
+      | some o =>
+        let (l2, verdict) := L2.onState st.l2 o
+        let st2 := { st1 with l2 := l2 }
+        match verdict with
+        | some d => if out = "ok" then (st2, "DIFF life2 " ++ d) else (st2, out)
+        | none => (st2, out)
+  | _ => (st1, out)
 
 end Redb.Driver
